@@ -1,0 +1,16 @@
+//go:build verif
+
+package server
+
+import "go.lsp.dev/protocol"
+
+// VerifC15Score exposes the score filterAndScoreFuzzyMatch assigns to one completion label
+// for a query (0 = filtered out).  Used by the verification harness (property C15) to hand the
+// ranking model its abstract inputs.  Add-only; not compiled without the `verif` tag.
+func VerifC15Score(label, query string, fuzzy bool) int {
+	scored := filterAndScoreFuzzyMatch([]protocol.CompletionItem{{Label: label}}, query, fuzzy)
+	if len(scored) == 0 {
+		return 0
+	}
+	return scored[0].score
+}
